@@ -6,9 +6,9 @@ from . import report
 from .repo import Repo, AnalysisError
 
 
-def analyse(prop, tier="quick", root=None):
+def analyse(prop, tier="quick", root=None, overlay=None):
     """-> Ctx with all instances (no I/O besides reading the tree)."""
-    repo = Repo(root)
+    repo = Repo(root, overlay=overlay)
     ctx = report.Ctx(repo, prop, tier)
     if repo.parse_errors:
         for rel, err in repo.parse_errors:
